@@ -673,6 +673,10 @@ def analyze_python_file(path: Path) -> tuple[bool, str]:
 
 # === Python Flag Parsing ===
 
+# The handler decides help/version queries itself: `python script.py -h` runs
+# the script, so the generic "ends in -h" shortcut must not apply
+HANDLES_HELP = True
+
 # Python flags that take an argument
 FLAGS_WITH_ARG = frozenset(
     {
@@ -739,6 +743,27 @@ def _find_script_path(tokens: list[str], cwd: Path) -> tuple[Path | None, int]:
     return None, -1
 
 
+def _own_options(tokens: list[str]) -> list[str]:
+    """Python's own options: everything before the script, up to -c/-m.
+
+    The interpreter stops reading options at -c CODE, -m MODULE, "-" or the
+    first non-option; what follows belongs to the program being run.
+    """
+    i = 1
+    while i < len(tokens):
+        token = tokens[i]
+        if token in ("-c", "-m"):
+            return tokens[: i + 1]
+        if token in FLAGS_WITH_ARG:
+            i += 2
+            continue
+        if token.startswith("-") and token != "-":
+            i += 1
+            continue
+        return tokens[:i]
+    return tokens
+
+
 def get_description(tokens: list[str]) -> str:
     """Get description for Python command."""
     if len(tokens) < 2:
@@ -783,18 +808,21 @@ def classify(ctx: HandlerContext) -> Classification:
         # Just "python" - starts interactive mode
         return Classification("ask", description=f"{tokens[0]} interactive")
 
+    # Options after the script name (or after -c/-m) are the program's, not python's
+    own = _own_options(tokens)
+
     # Check for safe flags first
-    for token in tokens[1:]:
+    for token in own[1:]:
         if token in SAFE_FLAGS:
             return Classification("allow", description=desc)
 
     # Check for -c (inline code) - too hard to analyze reliably
-    if "-c" in tokens:
+    if "-c" in own:
         return Classification("ask", description=desc)
 
     # Check for -m (module) - could run arbitrary code
-    if "-m" in tokens:
-        idx = tokens.index("-m")
+    if "-m" in own:
+        idx = own.index("-m")
         if idx + 1 < len(tokens):
             module = tokens[idx + 1]
             # Only calendar is truly inert (just prints output, no I/O or code exec)
@@ -806,7 +834,7 @@ def classify(ctx: HandlerContext) -> Classification:
         return Classification("ask", description=desc)
 
     # Check for -i (interactive after script)
-    if "-i" in tokens:
+    if "-i" in own:
         return Classification("ask", description=desc)
 
     # Find and analyze script
